@@ -693,6 +693,11 @@ impl NetworkBehaviour for Behaviour {
 
                 let action = if self.circuits.num_circuits_of_peer(event_source)
                     >= self.config.max_circuits_per_peer
+                    // A circuit also counts against the limit of its destination.
+                    || self
+                        .circuits
+                        .num_circuits_of_peer(inbound_circuit_req.dst())
+                        >= self.config.max_circuits_per_peer
                     || self.circuits.len() >= self.config.max_circuits
                     || !self
                         .config
